@@ -578,7 +578,10 @@ impl<K: Kmer, D: Debug> DebruijnGraph<K, D> {
         }
 
         for (target, dir, _) in node.r_edges() {
-            if target > node.node_id as usize {
+            // a right-side hairpin self-link (right end onto its own right end) has no
+            // left-side twin, so it must be written here
+            let right_hairpin = target == node.node_id && matches!(dir, Dir::Right);
+            if target > node.node_id as usize || right_hairpin {
                 let to_dir = match dir {
                     Dir::Left => "+",
                     Dir::Right => "-",
